@@ -200,6 +200,8 @@ FactorExprs ==
 \* post observes the stack
 RestoreExprs ==
   LET Pre  == { Bin("seq", Un("push", S(a)), Un("push", S(b))), Un("push", Id("ANY")) }
+              \* with grammar-extras also a stack filled by PUSH_LITERAL alone (no PUSH anywhere in the grammar)
+              \cup (IF Extras THEN { Bin("seq", [t |-> "pushlit", s |-> a], [t |-> "pushlit", s |-> b]) } ELSE {})
       F    == { Id("POP_ALL"), Id("POP"), Bin("seq", Id("DROP"), S(qq)), Bin("seq", Un("push", S(a)), S(qq)),
                 Bin("seq", Id("POP"), S(qq)), Bin("seq", Id("POP_ALL"), S(qq)), Id("r1"),
                 Bin("seq", Id("PEEK"), Bin("seq", Id("DROP"), S(qq))),
